@@ -9,6 +9,7 @@ CONSTANTS
   ClearFirst = FALSE
   NarrowExcept = FALSE
   NoAckWait = FALSE
+  CacheDead = FALSE
 INVARIANT TypeOK
 INVARIANT Inv_Reaped
 INVARIANT Inv_ParentsKnow
